@@ -91,7 +91,22 @@ func (rt *runtime) cmplFunctionDeclaration(list []*nodeFunctionLiteral, eval boo
 		if !stash.hasBinding(name) {
 			stash.createBinding(name, eval, value)
 		} else {
-			// TODO 10.5.5.e
+			if stash == stasher(rt.globalStash) {
+				// 10.5 step 5.e: a property of the global object that is already there is
+				// made a plain binding again if it can be, and must be one if it cannot.
+				existing := rt.globalObject.getProperty(name)
+				switch {
+				case existing == nil:
+				case existing.configurable():
+					mode := propertyMode(0o110)
+					if eval {
+						mode = 0o111
+					}
+					rt.globalObject.defineOwnProperty(name, property{Value{}, mode}, true)
+				case existing.isAccessorDescriptor() || !existing.writable() || !existing.enumerable():
+					panic(rt.panicTypeError("cannot redeclare %s as a function", name))
+				}
+			}
 			stash.setBinding(name, value, false) // TODO strict
 		}
 	}
